@@ -46,7 +46,7 @@ CLAIMS = {
          "A model says which cookie jar is authenticated (only a callback with a state this instance issued, an exchangeable code and an ID token that verifies and names a user); after every generated action GET /connect must answer 200 with a connection file iff the model says so, with the user name of the claim. Faults are injected at every point of the callback; cookies are mutated or taken from an instance with other keys. The thorough tier adds a real 125 s wait for the state expiry.",
          "4 C13"),
  "C14": ("stateful property-based testing against a reference NTLMv2 verifier (session-challenge model) with an independent NTLMv2 message builder (rapid)",
-         "Generated interleavings of negotiate, authenticate, replay and garbage messages over several sessions are applied to the repository's NTLM verifier; for every authenticate the harness recomputes, from the configured database only, HMAC_MD5(NTOWFv2(db[named user]), challenge of this session || blob): Authenticated must imply that equality (and the returned name), and a correct exchange must authenticate. The verifier package is tested in-process; the rdpgw-auth binary itself cannot be built here (PAM headers).",
+         "Generated interleavings of negotiate, authenticate, replay and garbage messages over several sessions are applied to the repository's NTLM verifier; for every authenticate the harness recomputes, from the configured database only, HMAC_MD5(NTOWFv2(db[named user]), challenge of this session || blob): Authenticated must imply that equality (and the returned name), and a correct exchange must authenticate. C14_CONC sends several authenticate messages answering one challenge at the same time and applies the same implication to each answer. The verifier package is tested in-process; the rdpgw-auth binary itself cannot be built here (PAM headers).",
          "4 C14"),
  "C15": ("property-based testing: generated token families vs an independent dir/A128CBC-HS256 reference decryption (rapid)",
          "Tokens around a minted one are generated for both key modes and checked at security.UserInfo and at the /tokeninfo handler: MUST-REJECT => error / 403 without any claim in the body, minted for U => 200 with sub U, 400/405 as stated, user name not readable from the token text; the verdict comes from the harness's own AES-CBC + HMAC + inflate implementation (stdlib only), not from go-jose.",
